@@ -54,7 +54,7 @@ for pid in props:
         "quick_cmd": f"./check {pid} quick",
         "thorough_cmd": f"./check {pid} thorough",
         "evidence_file": f"/verif/evidence/{pid}.json",
-        "replay_cmd_template": "cat {path}   # the file holds the case, the recorded trace and the command that re-executes it",
+        "replay_cmd_template": "./check --replay {path}",
         "engine": "vcheck",
         "level_claimed": {"category": t['level'], "text": t['text'], "design_ref": t['ref']},
         "level_note": t['note'],
